@@ -267,7 +267,7 @@ pub fn focus_of(name: &str) -> Option<Vec<&'static str>> {
     if name.contains("[focus:commit-path]") {
         Some(vec!["batch.", "write.", "worker.before_flush", "worker.before_compact", "flush.got_watermark", "rotate.sealed", "clear.", "ingest.", "meta."])
     } else if name.contains("[focus:write-path]") {
-        Some(vec!["write.", "batch.", "rotate.sealed", "worker.before_flush", "worker.got_msg"])
+        Some(vec!["write.", "batch.", "journal.lock", "ingest.", "rotate.sealed", "worker.before_flush", "worker.got_msg"])
     } else {
         None
     }
@@ -304,7 +304,7 @@ pub fn fold_e3(o: &mut Outcome, prop: &str, tier: &str, bodies: &[BodySpec], key
         if rep.capped {
             o.cov("exhaustive", json!(false));
         }
-        if rep.schedules < 20 {
+        if rep.capped && rep.schedules < 20 {
             o.machinery_errors.push(format!("body {}: only {} schedules were executed", b.body.name(), rep.schedules));
         }
         // violations: fewest preemptions / shortest first
